@@ -186,17 +186,12 @@ class T:
         a = [tr.arg(j) for j in range(5)]
         want = self.edit_bwd(*a)
         ubc = self.c.fn("update_bwd_constraint", U, U)
-        cands = []
+        # the request IS the backward request of that edit: a semantic premise (decided by the solver under the path condition,
+        # e.g. when the request was picked with an index that equals the trace's index only by the loop invariant)
         if isinstance(request, Obj) and request.cls.name == "Update" and isinstance(request.fields.get("constraint"), UVal):
-            for e, cond in alternatives(request.fields["constraint"].t, z3.BoolVal(True)):
-                if e.eq(ubc(want)):
-                    cands.append(cond)
+            cands = [request.fields["constraint"].t == ubc(want)]
         else:
-            for e, cond in alternatives(rq, z3.BoolVal(True)):
-                if e.eq(want):
-                    cands.append(cond)
-        if not cands:
-            return
+            cands = [rq == want]
         t0 = a[2]
         w0 = self.edit_w(*a)
         back = ad == self.tr_args(t0)          # `ad` here: the primal of the argdiffs (the new arguments)
